@@ -188,6 +188,18 @@ func check(c Case) error {
 			return err
 		}
 	}
+	// every result so far written into by the caller (qualifier maps, location trees, reference and feature lists): the
+	// written text parses again to the record that was written
+	gbk.Vandalise(&y)
+	gbk.Vandalise(&z)
+	var fresh poly.Sequence
+	if err := safely("Parse(Build(x)), a second time", func() { fresh = genbank.Parse(text) }); err != nil {
+		return err
+	}
+	gf, gfTrees := gbk.ExpectedOf(fresh)
+	if err := compareRoundTrip("Parse(Build(x)), a second time, after the caller had written into the earlier results", gf, gfTrees, want, trees); err != nil {
+		return fmt.Errorf("%v\n--- written text ---\n%s", err, clip(string(text)))
+	}
 	// (3) an independent reader recovers the same record from the written text
 	exclude := false
 	if !c.NoExclusion && vk.KnownActive(knownWriter) {
